@@ -4,3 +4,6 @@ import PysamlModel.Props.C01
 #print axioms C01.C01_model_meets_spec_sound
 #print axioms C01.C01_complete
 #print axioms C01.C01_model_meets_spec_complete
+#print axioms Sp.processFactory_identity_inv
+#print axioms C01.sigPolicyOk_of_loads_verify
+#print axioms C01.C01_sound_factory
